@@ -20,11 +20,11 @@ add("C20", "exploration",
     COMMON_NOTE + "The pre-go1.21 file is compiled with the installed toolchain through the overlay.",
     "bounded-exhaustive enumeration of the input space (small-scope) against a direct oracle", "E1/E6", "5/C20")
 
-MC_NOTE = COMMON_NOTE + "States are keyed by private fields read through overlay-added dump files; the key is deliberately over-fine (keeps capacities and the size-statistics ring) and carries a flag when buffered bytes differ from the stream, so merging never hides a corrupted buffer. "
+MC_NOTE = COMMON_NOTE + "States are keyed by EVERY private field of the object, read by reflection (package vdump: no private identifier of the code under test is named anywhere): extents and contents of its buffers, cursor, flags, parked buffers, sticky error, size statistics; the key is deliberately over-fine, which is always sound for de-duplication, so merging never hides a corrupted buffer. "
 
 add("C04", "model_checking",
     "Explicit-state breadth-first search over ALL operation histories (Next/Peek/Skip/ReadBinary with boundary sizes, negative counts, Release) of the REAL DefaultReader and BytesReader, for every combination of stream length, chunk policy, end-of-data style, zero-read policy and terminal error, with every transition compared against a plain cursor over the source bytes; on top, every per-Read deviation (1-byte, empty, half, all-with-error) up to a deviation bound on all short histories. This is the right level because the property quantifies over histories x fragmentations and the defects live in cursor arithmetic reachable only from non-initial states.",
-    MC_NOTE + "Environment: a source that fails keeps failing; zero-read policies are finite (<100 consecutive empty reads).",
+    MC_NOTE + "Environment: 8 kinds of terminal error values (plain, wrapped, joined-style, typed, timeout); after its terminal error a source either repeats it or answers garbage and another error; sources may also expose Len/ReadByte/WriteTo, answer up to 50 consecutive empty reads between data and 1..300 before their error (io.ErrNoProgress is accepted only while the source has not produced its error), or deliver their first reads one byte at a time; Release is also called with a non-nil error; requests up to 68 MiB.",
     "explicit-state BFS over operation histories of the real object + deviation-bounded exploration of environment answers, reference-model comparison on every transition", "E2+E1", "5/C04")
 add("C05", "model_checking",
     "Explicit-state breadth-first search over ALL histories of Malloc (filled at once or lazily just before Flush, forward/reverse), WriteBinary, Malloc(-1), Flush on the REAL DefaultWriter and BytesWriter, sink failing at write k for every k, bytes writers over nil/empty/partly filled/full initial slices; every transition compared with the region-list model (sink bytes == concatenation once and in order, WrittenLen, sticky error, target slice).",
@@ -38,14 +38,14 @@ add("C09", "model_checking",
 EX_NOTE = COMMON_NOTE + "The reference is an independent recursive-descent parser of the Thrift Binary grammar (ref/wire.go) written from the format, not from the code. "
 
 add("C02", "exploration",
-    "Bounded-exhaustive enumeration: every typed value tree of the generator (all 121 map key/value type pairs, all 11 list/set element types, sizes 0..3/many, 121 ordered struct field pairs, wide values, nesting chains to depth 63, strings to 9000 bytes) x trailers x all 7 skipper/reader combinations x every fragmentation policy of the stream, plus every per-Read deviation (<= bound) on small values and all decoder histories of <= 3 Next calls with pool reuse; oracle = encoded length / bytes / ReadLen / next byte / bytes pulled from the io.Reader.",
+    "Bounded-exhaustive enumeration: every typed value tree of the generator (all 121 map key/value type pairs, all 11 list/set element types, sizes 0..3/many, 121 ordered struct field pairs, wide values, nesting chains to depth 63, strings to 9000 bytes) x trailers x all 9 skipper/reader combinations (incl. a caller-implemented skip interface and Binary.Skip on an input held in a local array on a goroutine stack that moves while it grows) x every fragmentation policy of the stream (incl. sources with Len, runs of empty reads), values whose size needs the top byte of the 32-bit length, plus every per-Read deviation (<= bound) on small values and all decoder histories of <= 3 Next calls with pool reuse, a value > 1 MiB, Release between calls and SkipN before Next; oracle = encoded length / bytes / ReadLen / next byte / bytes pulled from the io.Reader / no Read issued once the value has been delivered.",
     EX_NOTE, "bounded-exhaustive enumeration of typed value trees x environment answers (deviation-bounded) against a reference encoder", "E1+E6", "5/C02")
 add("C03", "exploration",
-    "Bounded-exhaustive enumeration of inputs on all 21 buffer-based entry points: all grammar-alphabet strings up to length L and all full-alphabet strings up to length 2/3 (Binary.Skip with all 256 type bytes), every truncation, every single (thorough: pair of) structural perturbation and all pairwise splices of valid encodings; each call runs in three placements (against a PROT_NONE guard page, with spare capacity 0x00 and 0xff) under a recover boundary: no panic, no fault, identical results, reported length <= len(input).",
+    "Bounded-exhaustive enumeration of inputs on all 22 buffer-based entry points (string-copying ones under both settings of the span-cache allocator): all grammar-alphabet strings up to length L and all full-alphabet strings up to length 2/3 (Binary.Skip with all 256 type bytes), every truncation, every single (thorough: pair of) structural perturbation and all pairwise splices of valid encodings; each call runs in three placements (against a PROT_NONE guard page, with spare capacity 0x00 and 0xff) under a recover boundary: no panic, no fault, identical results, reported length <= len(input).",
     EX_NOTE + "Allocating entry points are driven with declared sizes <= 65536 only (the cap the statement allows).",
     "bounded-exhaustive input enumeration with guard-page placement and panic/fault boundary", "E6+E7", "5/C03")
 add("C08", "exploration",
-    "Bounded-exhaustive enumeration on all five skipping facilities (7 skipper/reader combinations): all grammar-alphabet strings up to length L x 18 requested types, every strict prefix and structural perturbation of generated trees, nesting chains 1..70 (plus mixed-kind and very deep chains) — accept/reject and extent compared with the independent grammar parser; rejection required from nesting 65, level 64 not compared.",
+    "Bounded-exhaustive enumeration on all five skipping facilities (9 skipper/reader combinations, incl. stack-held input): all grammar-alphabet strings up to length L x 18 requested types, every strict prefix and structural perturbation of generated trees, nesting chains 1..70 (plus mixed-kind and very deep chains) — accept/reject and extent compared with the independent grammar parser; rejection required from nesting 65, level 64 not compared.",
     EX_NOTE + "A stream skipper asking for > 2 MiB on a < 64 KiB input counts as a rejection (counted separately).",
     "bounded-exhaustive input enumeration against an independent recursive-descent grammar", "E6", "5/C08")
 
@@ -62,7 +62,7 @@ add("C13", "exploration",
     "Both directions (bytes -> tree -> bytes, tree -> bytes -> tree) on every generated value tree, all sequences of <= 3 top-level fields, all 121 ordered pairs and 1331 triples of field types inside nested structs (also inside lists and as map values), empty containers of all 121 key/value type pairs and members of different encoded sizes; the tree is compared field by field incl. Go types and the rule that KeyType/ValType are set only where meaningful.",
     EX_NOTE, "bounded-exhaustive enumeration of typed field trees against a reference encoder", "E6", "5/C13")
 add("C17", "fault_enumeration",
-    "In-memory: every failing call of the Binary readers/ReadMessageBegin/Skip met on all grammar-alphabet strings, all version halves, prefixes/perturbations and deep chains is classified by an independent reference into truncated / unknown type / negative size / bad version / depth and the protocol-exception type id must be admissible. Stream: every BufferReader method on streams cut at EVERY byte position x 4 terminal error values (incl. a wrapped sentinel) x end style x chunk policy: the failure must match the source's error under errors.Is; pooled readers are deliberately reused across cases so stale state would show.",
+    "In-memory: every failing call of the Binary readers/ReadMessageBegin/Skip met on all grammar-alphabet strings, all version halves, prefixes/perturbations and deep chains is classified by an independent reference into truncated / unknown type / negative size / bad version / depth and the protocol-exception type id must be admissible. Stream: every BufferReader method on streams cut at EVERY byte position x 8 terminal error values (wrapped sentinels, an error wrapping a protocol exception, a typed error wrapping its cause, wrapped io.EOF, a timeout) x end style x chunk policy, runs of 1..300 empty reads before the error, declared sizes beyond 64 MiB: the failure must match the source's error under errors.Is; pooled readers are deliberately reused across cases so stale state would show.",
     EX_NOTE, "exhaustive fault enumeration (every cut position x every injected error value) plus bounded-exhaustive malformed-input enumeration with an independent cause classifier", "E6+E1", "5/C17")
 
 TTH_NOTE = COMMON_NOTE + "The reference is an independent TTHeader frame builder/decoder/layout checker (ref/tth.go) written from the documented layout with 32-bit arithmetic. "
@@ -74,12 +74,12 @@ add("C10", "exploration",
     TTH_NOTE, "whole-domain sweeps + bounded-exhaustive hostile-frame enumeration against an independent reference decoder", "E6", "5/C10")
 
 add("C07", "exploration",
-    "The hash function is owned by the harness (overlay knob), so collision chains are enumerated, not sampled: all key sets of size 0..3 (thorough 0..4) over an 11-key alphabet x every key->slot assignment x 3 realisations of a slot as a 64-bit hash, every alphabet string probed with absent probes hashed into every slot (occupied run, last run, empty slot); value kinds int / pointer-free struct / Str2Str; all sequences of <= 3 loads on one instance (map, slices, failing load) incl. never-loaded instances, compared with a Go map after every step; Get must leave the private state bit-identical; every table size 0..300 and around each row of the prime table under 4 formula hashes.",
+    "The hash function is owned by the harness (overlay knob), so collision chains are enumerated, not sampled: all key sets of size 0..3 (thorough 0..4) over an 11-key alphabet x every key->slot assignment x 3 realisations of a slot as a 64-bit hash, every alphabet string probed with absent probes hashed into every slot (occupied run, last run, empty slot); value kinds int / pointer-free struct / Str2Str; all sequences of <= 3 loads on one instance (map, slices, failing load) incl. never-loaded instances, compared with a Go map after every step; every query (Get, Len, Item, String) must leave the private state bit-identical when the map type holds no synchronisation primitive; every table size 0..300 and around each row of the prime table under 4 formula hashes.",
     COMMON_NOTE + "Reference: Go map. The hash knob preserves the API and the uint32 truncation the code applies; Go map iteration order inside LoadFromMap is not owned (such cases are re-executed up to 8 times by the replay gate).",
     "small-scope exhaustive enumeration of key sets x hash assignments x load histories against a Go map, with the hash function as a controlled environment", "E6+E4", "5/C07")
 
 add("C18", "exploration",
-    "The helpers are pure functions of small arguments, so the whole product is enumerated: 6 error kinds x 15 type ids x 4 messages x 6 causes x {bare, wrapped} x 3 prefixes for PrependError and NewProtocolExceptionWithErr (dynamic type, type id, text, identity on protocol exceptions, Unwrap/Is reachability), and all ordered pairs (protocol exception, target) for errors.Is against a reference predicate.",
+    "The helpers are pure functions of small arguments, so the whole product is enumerated: 13 error kinds (the three library exceptions, with causes, foreign types exposing TypeId, user types embedding each library exception, fmt.Formatter errors, a protocol exception reused as decode target / with a mutable cause, plain) x 15 type ids x 4 messages x 9 causes (incl. errors.Join and multi-%w trees, non-comparable) x {bare, wrapped} x 3 prefixes for PrependError and NewProtocolExceptionWithErr (dynamic type, type id, text, identity on protocol exceptions, Unwrap/Is reachability), and all ordered pairs (protocol exception, target) for errors.Is and for the Is method called directly against a reference predicate.",
     COMMON_NOTE, "exhaustive product enumeration against a reference predicate", "E6", "5/C18")
 add("C19", "model_checking",
     "Explicit-state breadth-first search over all histories of Write/Read/Reset/Close/RemainingBytes/IsOpen/Open/Flush on the two handles (transport, buffer) of one bytes.Buffer, for both constructors, with a byte-FIFO reference compared after every transition (reads through either handle, RemainingBytes == unread length, Close empties, Reset visible through the other handle); plus the generic transport over every readable-length class and every registration/call sequence of <= 4 steps for the three callbacks (identity of arguments, result passed through, specific error and no call when unregistered).",
@@ -87,7 +87,7 @@ add("C19", "model_checking",
     "explicit-state BFS over operation histories of the real object against a FIFO reference model", "E2", "5/C19")
 
 add("C15", "exploration",
-    "The whole interval of value lengths 0..3x4096+1 is swept for WriteStringNocopy/WriteBinaryNocopy with a nil and a recording direct writer and buffers with exact and spare capacity; all sequences of <= 3 calls over boundary lengths; Base with every combination of small/threshold-1/threshold/threshold+1 for its three strings, a map key and a map value (4^5 + nil/empty map), BaseResp, ApplicationException. Oracle: an independent splice of the linear bytes with the recorded (slice, remainCap) pairs must equal the copying path; direct writes happen iff length >= threshold and a writer is attached, alias the caller's value, and returned n + direct bytes == advertised length; the repository's NetpollDirectWriter is cross-checked.",
+    "The whole interval of value lengths 0..3x4096+1 is swept for WriteStringNocopy/WriteBinaryNocopy with a nil and a recording direct writer and buffers with exact and spare capacity; all sequences of <= 3 calls over boundary lengths; Base with every combination of small/threshold-1/threshold/threshold+1 for its three strings, a map key and a map value (4^5 + nil/empty map), BaseResp, ApplicationException. structs with 2..70 map entries of large values (streams compared as decoded structs, maps as sets) and writes that follow a failed (panicked, recovered) write. Oracle: an independent splice of the linear bytes with the recorded (slice, remainCap) pairs must equal the copying path; direct writes only with a writer attached, positions in stream order, every piece covered by its remaining capacity, the linear bytes before a position final when it is announced, returned n + direct bytes == advertised length; which values go direct (the threshold) and whether pieces alias the caller's memory are the library's choice and are not asserted; a second, end-relative splice convention is cross-checked.",
     COMMON_NOTE, "full interval sweep + bounded-exhaustive combinations against an independent splice oracle", "E6", "5/C15")
 add("C16", "exploration",
     "For every value-length class across the span allocator's size classes a run of consecutive decodes long enough to wrap the 1 MiB span (thorough: twice), all results retained, plus all ordered pairs of classes alternating, on 8 entry points and both span-cache settings; afterwards the input is overwritten, reader buffers are released and scribbled by a pool co-tenant, and every retained value must be unchanged; the capacity ranges of all returned values are checked pairwise disjoint and disjoint from the input by a sorted address sweep, and appending to / overwriting returned slices must leave siblings and input intact.",
@@ -95,7 +95,7 @@ add("C16", "exploration",
     "bounded-exhaustive enumeration of decode histories per allocator size class with aliasing oracle (address sweep + mutation)", "E6+E4", "5/C16")
 
 add("C14", "model_checking",
-    "Stateless model checking of the real code under a cooperative scheduler: thread bodies run create/use/release cycles (twice, so pooled objects and buffers are re-acquired) of every pooled type with payloads stamped by thread id; scheduling points sit before every sync.Pool Get/Put, every buffer-pool Malloc/Free, the span allocator's try-lock and every source/sink IO; ALL schedules with <= 2 (thorough 3) preemptions are enumerated for 19 two- and three-thread scenarios, with 'the pool lost its items at this Get' as an extra deviation. Oracle per execution: every result equals the value the body knows must come back, each thread's observation log equals its solo log, buffer-pool ownership audit, pooled objects are neither used (trap) nor written (snapshot) after Put. Complement (sampling, declared): a free-running -race pass of equivalent bodies on the un-shimmed build plus concurrent Get on shared maps; read-only-ness of Get is established by C07's state-digest oracle.",
+    "Stateless model checking of the real code under a cooperative scheduler: thread bodies run create/use/release cycles (twice, so pooled objects and buffers are re-acquired) of every pooled type with payloads stamped by thread id; scheduling points sit before every sync.Pool Get/Put, every buffer-pool Malloc/Free, the span allocator's try-lock and every source/sink IO; ALL schedules with <= 2 (thorough 3) preemptions are enumerated for 30 two- and three-thread scenarios (readers, writers, the three skip decoders, TTHeader codec incl. encodes from shared parameter maps, span allocator, Base encode re-entered at the direct-write callback, error paths), with 'the pool lost its items at this Get' as an extra deviation. Oracle per execution: every result equals the value the body knows must come back, each thread's observation log equals its solo log, buffer-pool ownership audit, pooled objects are neither used (trap) nor written (snapshot) after Put. Shared maps: every exported query is shown to leave all private fields bit-identical (when the type holds no synchronisation primitive), so reads commute and the sequential exploration covers all interleavings of queries. Complement (sampling, declared): a free-running -race pass of equivalent bodies on the un-shimmed build plus concurrent Get/Len/Item/String on shared maps.",
     COMMON_NOTE + "Scheduling points are at synchronisation operations only; unsynchronised accesses between them are left to the -race complement, which is sampling and only ever adds data-race/self-check reports. Memory model: sequential consistency.",
     "stateless model checking under a controlled scheduler with iterative preemption bounding (hand-written explorer), plus a declared free-running race-detector complement", "E3+E4", "5/C14")
 
